@@ -456,6 +456,10 @@ func (c *Coordinator) assignNoScrapingTargets(
 			assignNoScrapingTargetsTotal.WithLabelValues().Inc()
 		} else {
 			// no shard avaliable
+			if tarSp.isZero() {
+				// a target without samples still needs some shard to scrape it
+				tarSp.processSpace = 1
+			}
 			needSp.add(tarSp)
 		}
 	}
